@@ -9,6 +9,7 @@
 (*   {"k":"case","id","t","wf","pool"}   the line SemCases exported        *)
 (*   {"k":"eq",  "id","form":"bin"|"cur","m":[[..]]}  "T" | "F" | "P"anic  *)
 (*   {"k":"cmp", "id","form":"bin"|"cur","m":[[..]]}  -1 | 0 | 1 | 99=panic*)
+(*        (-2 / +2: a result below -1 / above +1)                          *)
 (*   {"k":"hash","id","h":[..],"h2":[..],"hx":[..],"same":[..]}            *)
 (*        h, h2: two calls in one process, hx: a second process (decimal   *)
 (*        strings or "P"); same[i]: argument snapshot unchanged by the call*)
@@ -104,7 +105,13 @@ CmpObs ==
   /\ IsObs("cmp")
   /\ IF ~RightType \/ ~Square(Ev.m) \/ eqm = <<>>
      THEN Fail(Plain("cmp: observation does not belong to the current case (or no Equal observation precedes it)", Ev.form)) /\ UNCHANGED cmpm
-     ELSE LET m == Ev.m
+     ELSE LET \* a component whose USER Compare method returns a difference makes the derived Compare return
+              \* values beyond -1/+1 (driver: -2 / +2); the statement's range is about derived code, so for such
+              \* types only the sign is judged
+              m == IF Unclamped(T)
+                   THEN [a \in DOMAIN Ev.m |-> [b \in DOMAIN Ev.m[a] |->
+                           IF Ev.m[a][b] = 2 THEN 1 ELSE IF Ev.m[a][b] = -2 THEN -1 ELSE Ev.m[a][b]]]
+                   ELSE Ev.m
               tr == CmpTransBad(m, N)
               curbad == IF Ev.form = "cur" /\ cmpm # <<>>
                         THEN {p \in N \X N : m[p[1]][p[2]] # cmpm[p[1]][p[2]] /\ m[p[1]][p[2]] \in {-1, 0, 1} /\ cmpm[p[1]][p[2]] \in {-1, 0, 1}} ELSE {}
